@@ -256,6 +256,10 @@ pub fn productions() -> Vec<Prod> {
         S "show"         "show ‹E›: ‹E›";
         S "show_all"     "show: ‹E›";
         S "show_set"     "show ‹E›: set g(‹A›)";
+        S "set_dotted"   "set std.figure.caption(‹A›)";
+        S "show_set_dot" "show std.figure: set std.figure.caption(‹A›)";
+        S "show_dotted"  "show std.math.equation: ‹E›";
+        S "import_dotted" "import a.b.c: d";
         S "import"       "import \"m.typ\"";
         S "import1"      "import \"m.typ\": a";
         S "import2"      "import \"m.typ\": b, a";
